@@ -142,6 +142,29 @@ func readAllWays(text string) (map[string][]control.Paragraph, error) {
 		}
 	}
 	out["Decoder.Decode(&control.Paragraph) loop"] = dp
+	// a slice of pointers is a slice like any other; and a slice that held something before is
+	// filled with what the document says, not appended to
+	var ptrs []*paraHolder
+	if err := control.Unmarshal(&ptrs, strings.NewReader(text)); err != nil {
+		return nil, errf("Unmarshal(&[]*T): %v", err)
+	}
+	pp := []control.Paragraph{}
+	for _, h := range ptrs {
+		if h == nil {
+			return nil, errf("Unmarshal(&[]*T) left a nil element")
+		}
+		pp = append(pp, h.Paragraph)
+	}
+	out["Unmarshal(&[]*T)"] = pp
+	used := []paraHolder{{Paragraph: control.Paragraph{Order: []string{"Old"}, Values: map[string]string{"Old": "1"}}}, {}}
+	if err := control.Unmarshal(&used, strings.NewReader(text)); err != nil {
+		return nil, errf("Unmarshal(&[]T) into a used slice: %v", err)
+	}
+	up := []control.Paragraph{}
+	for _, h := range used {
+		up = append(up, h.Paragraph)
+	}
+	out["Unmarshal(&[]T) into a slice that held two elements"] = up
 	// one reader / decoder asked in different ways in turn: the first paragraph on its own, the
 	// rest in one go
 	pr3, err := control.NewParagraphReader(strings.NewReader(text), nil)
@@ -184,7 +207,7 @@ func readAllWays(text string) (map[string][]control.Paragraph, error) {
 
 var specC07Model = Register(&Spec[DocCase]{
 	Prop: "C07", Name: "model",
-	Rule: "deb822 documents rendered from a model: 0..5 paragraphs of 1..6 uniquely named fields ([A-Za-z0-9][A-Za-z0-9_.+-]*), ':' + 0..3 blanks, first line text (possibly empty; may contain ':' '#' UTF-8) with trailing blanks, 0..6 continuation lines (marker space or tab, then ' .' or freely indented text, trailing blanks), '#' comment lines at every kind of line boundary, 1..3 blank lines between paragraphs, 0..2 before/after, LF or CRLF, final newline present or absent. Oracle: All(), a Next() loop, Unmarshal(&[]T) and a Decoder.Decode(&T) loop (T a struct embedding control.Paragraph, and T = control.Paragraph itself), one Next() followed by All(), and one Decode(&T) followed by Decode(&[]T) on the same decoder all return exactly the model paragraphs, and so does All() when the source is a one-byte-at-a-time reader, a half reader or a reader that delivers its last data together with io.EOF: Order = names in file order, value = first line if no continuation else logical lines joined by newline + trailing newline (a kept empty first line is accepted too). Non-trivial: >= 2 paragraphs, a continuation, a comment inside a field, CRLF or no final newline; distinct by text.",
+	Rule: "deb822 documents rendered from a model: 0..5 paragraphs of 1..6 uniquely named fields ([A-Za-z0-9][A-Za-z0-9_.+-]*), ':' + 0..3 blanks, first line text (possibly empty; may contain ':' '#' UTF-8) with trailing blanks, 0..6 continuation lines (marker space or tab, then ' .' or freely indented text, trailing blanks), '#' comment lines at every kind of line boundary, 1..3 blank lines between paragraphs, 0..2 before/after, LF or CRLF, final newline present or absent. Oracle: All(), a Next() loop, Unmarshal(&[]T) and a Decoder.Decode(&T) loop (T a struct embedding control.Paragraph, and T = control.Paragraph itself), Unmarshal(&[]*T), Unmarshal into a slice variable that held two elements before, one Next() followed by All(), and one Decode(&T) followed by Decode(&[]T) on the same decoder all return exactly the model paragraphs, and so does All() when the source is a one-byte-at-a-time reader, a half reader or a reader that delivers its last data together with io.EOF: Order = names in file order, value = first line if no continuation else logical lines joined by newline + trailing newline (a kept empty first line is accepted too). Non-trivial: >= 2 paragraphs, a continuation, a comment inside a field, CRLF or no final newline; distinct by text.",
 	Check: func(c DocCase, r *Recorder) error {
 		nt := false
 		for _, f := range c.Feats {
@@ -201,7 +224,7 @@ var specC07Model = Register(&Spec[DocCase]{
 		if err != nil {
 			return errf("well-formed document %q: %v", c.Text, err)
 		}
-		for _, how := range []string{"All()", "Next() loop", "Unmarshal(&[]T)", "Decoder.Decode(&T) loop", "Unmarshal(&[]control.Paragraph)", "Decoder.Decode(&control.Paragraph) loop", "Next() then All()", "Decode(&T) then Decode(&[]T)"} {
+		for _, how := range []string{"All()", "Next() loop", "Unmarshal(&[]T)", "Decoder.Decode(&T) loop", "Unmarshal(&[]control.Paragraph)", "Decoder.Decode(&control.Paragraph) loop", "Next() then All()", "Decode(&T) then Decode(&[]T)", "Unmarshal(&[]*T)", "Unmarshal(&[]T) into a slice that held two elements"} {
 			if err := parasMatch(ways[how], c.Want, how); err != nil {
 				return errf("document %q: %v", c.Text, err)
 			}
@@ -415,7 +438,7 @@ var specC07Edge = Register(&Spec[DocCase]{
 		if err != nil {
 			return errf("well-formed document of %d bytes (padding field in front): %v", len(c.Text), err)
 		}
-		for _, how := range []string{"All()", "Next() loop", "Unmarshal(&[]T)", "Decoder.Decode(&T) loop", "Unmarshal(&[]control.Paragraph)", "Decoder.Decode(&control.Paragraph) loop", "Next() then All()", "Decode(&T) then Decode(&[]T)"} {
+		for _, how := range []string{"All()", "Next() loop", "Unmarshal(&[]T)", "Decoder.Decode(&T) loop", "Unmarshal(&[]control.Paragraph)", "Decoder.Decode(&control.Paragraph) loop", "Next() then All()", "Decode(&T) then Decode(&[]T)", "Unmarshal(&[]*T)", "Unmarshal(&[]T) into a slice that held two elements"} {
 			if err := parasMatch(ways[how], c.Want, how); err != nil {
 				return errf("document of %d bytes with a %d-byte padding line: %v", len(c.Text), len(c.Want[0].Values["Pad-Field"]), err)
 			}
